@@ -88,10 +88,14 @@ class SimultaneousScheduler(Scheduler):
             event = self.handle_delayed_event(model.events.pop(), dt=model.dt)
 
             if event:
-                model.agents[event.receiver_id].receive_event(event)
+                receiver = model.agent(event.receiver_id)
 
-                if model.data_collector:
-                    model.data_collector.record_event(time, event)
+                # an event addressed to an agent that no longer exists is dropped
+                if receiver is not None:
+                    receiver.receive_event(event)
+
+                    if model.data_collector:
+                        model.data_collector.record_event(time, event)
 
         # give the model a chance to update dynamic properties etc.
 
